@@ -623,6 +623,25 @@ func plants() []*plant {
 	st("local-forward-use", []string{"fn", "fn-if"}, []string{"log(\x01lv9)", "lv9 = 1"}, none)
 	st("lambda-param-shadows", []string{"top", "fn"}, []string{"log((lambda nosuch3: \x01nosuch3)(1))"}, none)
 	st("comp-later-clause-var", []string{"top", "fn"}, []string{"log([1 for q1 in [1] if \x01q2 for q2 in [2]])"}, none)
+	// the counters are restored when a loop or an if ends
+	st("break-after-loop", inFn, []string{"for bx in []:", "pass", "\x01break"}, func(o [6]bool, w string) []string {
+		if w == "fn-for" {
+			return nil // still inside the host's loop
+		}
+		return []string{"RBranchNotInLoop"}
+	})
+	st("load-after-toplevel-if", []string{"top"}, []string{"if 1:", "pass", "\x01load(\"m.star\", \"zz\")"}, func(o [6]bool, _ string) []string {
+		if o[oTLC] {
+			return nil
+		}
+		return []string{"@2,0:RIfToplevel"}
+	})
+	st("load-after-toplevel-for", []string{"top"}, []string{"for tl3 in []:", "pass", "\x01load(\"m.star\", \"zz\")"}, func(o [6]bool, _ string) []string {
+		if o[oTLC] {
+			return nil
+		}
+		return []string{"@2,0:RForToplevel"}
+	})
 	st("load-in-toplevel-if", []string{"top"}, []string{"if 1:", "\x01load(\"m.star\", \"zz\")"}, func(o [6]bool, _ string) []string {
 		if o[oTLC] {
 			return []string{"RLoadInConditional"}
@@ -953,6 +972,12 @@ func resolveMain(argv []string) {
 				posOf := func(w string) (string, int) {
 					if strings.HasPrefix(w, "@enclosing:") {
 						return strings.TrimPrefix(w, "@enclosing:"), pr.Marker - 1000 - 2
+					}
+					if strings.HasPrefix(w, "@") { // "@dl,dc:Rule": dl lines above, dc columns to the left of the marker
+						var dl, dc int
+						var rule string
+						fmt.Sscanf(strings.Replace(w, ":", " ", 1), "@%d,%d %s", &dl, &dc, &rule)
+						return rule, pr.Marker - 1000*dl - dc
 					}
 					return w, pr.Marker
 				}
